@@ -9,12 +9,12 @@ from mc.proc_monitor import Monitor
 from mc.procworld import canonical, run_history, tick_alphabet
 
 
-def explore_config(prop: str, workers: int, max_fails: int, max_dev: int, max_depth: int, acc: Acc) -> None:
+def explore_config(prop: str, workers: int, max_fails: int, max_dev: int, max_depth: int, acc: Acc, opts: Any = None) -> None:
     prefix = prop + ":"
     alpha = tick_alphabet(workers, deviations=max_dev > 0)
     seen = set()
     frontier: List[List[Dict[str, Any]]] = [[]]
-    env0 = run_history(workers, max_fails, [], Monitor())
+    env0 = run_history(workers, max_fails, [], Monitor(), opts)
     seen.add((canonical(env0), 0))
     acc.states += 1
     acc.paths += 1
@@ -36,7 +36,7 @@ def explore_config(prop: str, workers: int, max_fails: int, max_dev: int, max_de
                     continue
                 h = hist + [choice]
                 mon = Monitor()
-                env = run_history(workers, max_fails, h, mon)
+                env = run_history(workers, max_fails, h, mon, opts)
                 acc.transitions += 1
                 acc.paths += 1
                 for f in mon.facts:
@@ -45,8 +45,8 @@ def explore_config(prop: str, workers: int, max_fails: int, max_dev: int, max_de
                     if key.startswith(prefix):
                         acc.violation(
                             key[len(prefix):],
-                            f"{msg} | workers={workers} max_fails={max_fails} history={json.dumps(jsonable(_brief(h)))}",
-                            {"workers": workers, "max_fails": max_fails, "history": h, "key": key},
+                            f"{msg} | workers={workers} max_fails={max_fails}{(' options=' + json.dumps(opts)) if opts else ''} history={json.dumps(jsonable(_brief(h)))}",
+                            {"workers": workers, "max_fails": max_fails, "history": h, "key": key, "opts": opts},
                         )
                 if any(k.startswith(prefix) for k, _ in mon.violations) and len(acc.violations) >= 6:
                     stop = True  # this configuration has failed; more histories add nothing
@@ -136,8 +136,8 @@ def _brief(h: List[Dict[str, Any]]) -> List[Dict[str, Any]]:
 
 def replay(obj: Dict[str, Any]) -> int:
     mon = Monitor()
-    env = run_history(obj["workers"], obj["max_fails"], obj["history"], mon)
-    print(f"workers={obj['workers']} max_fails={obj['max_fails']}")
+    env = run_history(obj["workers"], obj["max_fails"], obj["history"], mon, obj.get("opts"))
+    print(f"workers={obj['workers']} max_fails={obj['max_fails']} options={obj.get('opts')}")
     print("history:", json.dumps(jsonable(_brief(obj["history"]))))
     print("trace:")
     for e in env.events:
